@@ -40,7 +40,7 @@ var slotReq = map[string]string{
 	"Return.values": "EqualsEach+Arity",
 	"For.init":      "Tag", "For.increment": "Tag",
 	// no type requirement
-	"Group.child": "-", "IfBranch.body": "-", "Else.body": "-", "For.body": "-", "FunctionDefinition.body": "-", "Program.body": "-", "evaluatedValues.values": "-",
+	"Group.child": "Single", "IfBranch.body": "-", "Else.body": "-", "For.body": "-", "FunctionDefinition.body": "-", "Program.body": "-", "evaluatedValues.values": "-",
 }
 
 var acceptedAtoms = map[string][]atomKind{
@@ -54,6 +54,7 @@ var acceptedAtoms = map[string][]atomKind{
 	"Tag":           {atomTag},
 	"Arity":         {atomArity},
 	"Op":            {atomOp},
+	"Single":        {atomSingle, atomBool, atomInt, atomString, atomSlice, atomEquals},
 }
 
 func constTypeSatisfies(req, dt string, slice bool) bool {
@@ -70,6 +71,8 @@ func constTypeSatisfies(req, dt string, slice bool) bool {
 		return slice || dt == "string"
 	case "NonVoid":
 		return dt != "unknown" && dt != ""
+	case "Single":
+		return dt != "unknown" && dt != "" && dt != "multiple"
 	}
 	return false
 }
@@ -98,6 +101,7 @@ func runC06(w *World) *Result {
 	}
 	r.Rule("R-C06-single", "every element of a value list is tested for multiple results before the list can end", 1)
 	c06Single(w, r)
+	c06SwitchTag(w, pf, r)
 	// second line
 	bash, err1 := BuildBackend(w, "bash")
 	batch, err2 := BuildBackend(w, "batch")
@@ -192,7 +196,7 @@ func (pf *ParserFacts) judgeSlot(s SlotStore, req string) []slotVerdict {
 		out = append(out, v)
 	case "Tag":
 		out = append(out, pf.tagReq(s))
-	case "Bool", "Int", "String", "Slice", "SliceOrString", "NonVoid":
+	case "Bool", "Int", "String", "Slice", "SliceOrString", "NonVoid", "Single":
 		out = append(out, pf.scalar(s, req, true))
 	case "Equals":
 		out = append(out, pf.scalar(s, "Equals", false))
@@ -1692,4 +1696,63 @@ func derivesFromReturnTypesLen(v ssa.Value, d int, seen map[ssa.Value]bool) bool
 		}
 	}
 	return false
+}
+
+// c06SwitchTag: the tag of a switch is compared with every case, so the case comparisons
+// carry its type check — but a switch without cases (default only) builds no comparison at
+// all: the tag must be tested for being exactly one value on every path to the finished
+// statement, independently of the cases (switch two() { default: … } is not Go).
+func c06SwitchTag(w *World, pf *ParserFacts, r *Result) {
+	rule := "R-C06-single"
+	n := 0
+	for _, fn := range w.Funcs("parser") {
+		if fn.Parent() != nil || !constructsNode(fn, "If") || !contains(scopeConstsIn(fn), "switch") {
+			continue
+		}
+		// the tag: left operand of the case comparisons
+		var tags []ssa.Value
+		for _, s := range pf.Slots {
+			if s.Fn == fn && s.Key() == "Comparison.left" {
+				for _, o := range pf.origins(s.Val, map[ssa.Value]bool{}) {
+					if o.kind == "value" {
+						tags = append(tags, o.val)
+					}
+				}
+			}
+		}
+		if len(tags) == 0 {
+			continue
+		}
+		// success returns: the finished statement
+		var rets []ssa.Instruction
+		for _, b := range fn.Blocks {
+			if len(b.Instrs) == 0 {
+				continue
+			}
+			if ret, ok := b.Instrs[len(b.Instrs)-1].(*ssa.Return); ok && !isErrorReturn(ret) {
+				rets = append(rets, ret)
+			}
+		}
+		for i, tag := range tags {
+			n++
+			key := fmt.Sprintf("single:switch-tag:%s#%d", FuncName(fn), i+1)
+			okAll, why := true, ""
+			for _, ret := range rets {
+				s := SlotStore{Fn: fn, Node: "Switch", Field: "tag", Val: tag, Instr: ret}
+				if ok, w2 := pf.guardedBy(s, tag, atomSingle); !ok {
+					okAll, why = false, w2+" (return at "+pf.W.Pos(ret.Pos())+")"
+				} else if why == "" {
+					why = w2
+				}
+			}
+			if okAll {
+				r.Ok(rule, key, pf.W.Pos(fn.Pos()), "the switch tag is tested for being a single value before the statement is finished, whatever cases follow: "+why)
+			} else {
+				r.Bad(rule, key, pf.W.Pos(fn.Pos()), "the switch tag is type-checked only through the case comparisons: with no case (default only) a call returning several values, or none, is accepted as tag — "+why)
+			}
+		}
+	}
+	if n == 0 {
+		r.Bad(rule, "single:switch-tag:none", "-", "the construction of the if-chain for switch was not found")
+	}
 }
